@@ -16,6 +16,7 @@ from functools import cmp_to_key
 
 from ufl.argument import Argument
 from ufl.coefficient import Coefficient
+from ufl.constant import Constant
 from ufl.core.multiindex import FixedIndex, MultiIndex
 from ufl.variable import Label
 
@@ -74,6 +75,20 @@ def _cmp_coefficient(a, b):
         return 0
 
 
+def _cmp_constant(a, b):
+    """Cmp constant."""
+    # Compare relative counts as for Coefficients; comparing repr would
+    # order count 10 before count 9 and make the order depend on the
+    # values of the global counter.
+    x, y = a._count, b._count
+    if x < y:
+        return -1
+    elif x > y:
+        return 1
+    else:
+        return 0
+
+
 def _cmp_argument(a, b):
     """Cmp argument."""
     # It's ok to compare relative number and part for Arguments,
@@ -101,6 +116,7 @@ _terminal_cmps = {}
 _terminal_cmps[MultiIndex._ufl_typecode_] = _cmp_multi_index
 _terminal_cmps[Argument._ufl_typecode_] = _cmp_argument
 _terminal_cmps[Coefficient._ufl_typecode_] = _cmp_coefficient
+_terminal_cmps[Constant._ufl_typecode_] = _cmp_constant
 _terminal_cmps[Label._ufl_typecode_] = _cmp_label
 
 
